@@ -12,6 +12,9 @@ import time
 import traceback
 
 VERIF = os.path.dirname(os.path.dirname(os.path.abspath(__file__)))
+# VERIF_OUT: where evidence/ and replays/ go (default: /verif itself).  Only tools/psweep.sh sets it, so that seeded changes can be
+# swept in parallel on scratch worktrees without touching the committed evidence; registered checks never set it.
+OUT = os.environ.get("VERIF_OUT", VERIF)
 EXIT_OK, EXIT_VIOLATION, EXIT_UNDECIDED, EXIT_CRASH = 0, 1, 2, 3
 
 
@@ -348,7 +351,7 @@ def finish(prop, tier, seed, results, extra, t0, level_text=None, partial=False)
         seen.add(key)
         n_viol += 1
         from . import replay
-        path = os.path.join(VERIF, "replays", prop, _slug(f"{unit}__{clause}__{sig}") + ".json")
+        path = os.path.join(OUT, "replays", prop, _slug(f"{unit}__{clause}__{sig}") + ".json")
         replay.write_replay(path, {"property": prop, "unit": unit, "clause": clause, "witness": sig,
                                    "obligation": f.get("obligation"), "native": w, "solver_model": f.get("model"),
                                    "backend": f.get("backend"), "note": f.get("note"),
@@ -389,13 +392,13 @@ def finish(prop, tier, seed, results, extra, t0, level_text=None, partial=False)
         "wall_s": round(wall, 2),
         "violations": n_viol,
     }
-    os.makedirs(os.path.join(VERIF, "evidence"), exist_ok=True)
+    os.makedirs(os.path.join(OUT, "evidence"), exist_ok=True)
     # obligations that fail only because of a listed known finding are reported apart, not as proof obligations
     kf_obls = {f.get("obligation") for _, _, _, f in known_hits if isinstance(f, dict) and f.get("obligation")}
     ev["coverage"]["obligations"] = n_obl - len(kf_obls)
     ev["coverage"]["known_finding_obligations"] = sorted(kf_obls)
     fname = f"{prop}.partial.json" if partial else f"{prop}.json"
-    with open(os.path.join(VERIF, "evidence", fname), "w") as fh:
+    with open(os.path.join(OUT, "evidence", fname), "w") as fh:
         json.dump(ev, fh, indent=1, default=str)
     print(f"{prop} [{tier}]: units={len(results)} obligations={n_obl} discharged={n_dis} "
           f"known-findings={len(known_hits)} violations={n_viol} undecided={len(undecided)} "
